@@ -25,6 +25,9 @@ type RawCall struct {
 	CT     string            `json:"ct,omitempty"`
 	Body   string            `json:"body,omitempty"`
 	Fault  *Fault            `json:"fault,omitempty"`
+	TOp    string            `json:"top,omitempty"`
+	V      uint64            `json:"v,omitempty"`
+	Edge   bool              `json:"edge,omitempty"`
 }
 
 type CScenario struct {
@@ -42,6 +45,7 @@ type CScenario struct {
 	Procs      int         `json:"gomaxprocs"`
 	MapPolicy  int         `json:"map_policy"`
 	SkipAlone  bool        `json:"skip_alone,omitempty"`
+	Typed      bool        `json:"typed,omitempty"`
 }
 
 type CRecord struct {
@@ -55,6 +59,8 @@ type CRecord struct {
 	Status     int           `json:"status"`
 	BodySum    string        `json:"body_sum,omitempty"`
 	BodyLen    int           `json:"body_len"`
+	ReqCT      string        `json:"req_ct,omitempty"`
+	T          *TypedRec     `json:"typed,omitempty"`
 }
 
 type CResult struct {
@@ -491,6 +497,38 @@ func (e *Engine) replayCorpus(c *core.Ctx, id string, raw json.RawMessage, race 
 	fmt.Printf("replay: schedule hash %s\n", r.SchedHash)
 	aloneBy := map[[2]int]*CRecord{}
 	var ps []problem
+	if rs.Scenario.Typed {
+		deliver := e.deliverSets()
+		pkg := rs.Scenario.Pkg
+		for _, a := range r.Alone {
+			aloneBy[[2]int{a.Task, a.Op}] = a
+		}
+		for pi, recs := range [][]*CRecord{r.Alone, r.Conc} {
+			for _, cr := range recs {
+				switch id {
+				case "C01":
+					ps = append(ps, typedExact(cr, pkg)...)
+					ps = append(ps, typedDeliver(cr, pkg, deliver[pkg])...)
+				case "C15":
+					ps = append(ps, typedC15(cr, pkg)...)
+				case "C19":
+					if pi == 1 {
+						ps = append(ps, typedC19(aloneBy[[2]int{cr.Task, cr.Op}], cr, pkg)...)
+					}
+				}
+			}
+		}
+		if id == "C19" && r.Deadlock != "" {
+			ps = append(ps, problem{"no task blocks forever (bubble deadlock)", clip(r.Deadlock, 1200), "typed/deadlock/" + pkg})
+		}
+		for _, p := range ps {
+			out.Violations = append(out.Violations, core.Violation{Key: p.Key, Oracle: p.Oracle, What: p.What, Seed: c.Seed, Scenario: map[string]any{"binary": "corpus-plain", "scenario": rs.Scenario}})
+		}
+		for _, rep := range r.Races {
+			out.Violations = append(out.Violations, core.Violation{Key: "typed/race " + raceKey(rep), Oracle: "no data race", What: clip(rep, 1500), Seed: c.Seed, Scenario: map[string]any{"binary": "corpus-race", "scenario": rs.Scenario}})
+		}
+		return out, nil
+	}
 	for _, a := range r.Alone {
 		aloneBy[[2]int{a.Task, a.Op}] = a
 		if id == "C15" {
